@@ -3,7 +3,7 @@ Model: lean/RedisGoModel/Exec/{Core,Set,Dispatch}.lean (+ Ds/SetOps.lean); theor
 tie: exec engine (server.Manager.ExecCommand + VerifDump hook), SPOP/SRANDMEMBER in checker mode."""
 import random
 
-from .. import core, execgen_set, execsuite, families
+from .. import core, execgen_set, execsuite, families, concsuite
 
 
 def run(R, ctx):
@@ -18,6 +18,11 @@ def run(R, ctx):
              "CR/LF and binary bytes; count extremes (0, negative, +-2^63, non-numeric); arity damage; "
              "refused-command scenarios (a wrong-typed source behind good ones, destination among the sources, then a full dump: a refused command changes nothing)")
 
+    rule = R.rule
+    concsuite.run_conc(R, ctx, "set-addrem", ['addrem'], (2, 12), race=False)
+    R.rule = rule + " Concurrent scenario(s) addrem of the conc engine (see C05): the family's containers under concurrent clients, verdict by invariants that need no history search."
 
 def replay(R, payload):
+    if payload.get("engine") == "conc":
+        return concsuite.replay_conc(R, payload)
     return core.generic_replay(R, payload)
